@@ -100,6 +100,9 @@ type Gate struct {
 	last     time.Time
 	wake     chan struct{}
 	filter   func(c *Client) bool // optional: only these clients are schedulable
+	seen     map[string]bool      // controlled mode: (label, store fingerprint) pairs already executed
+	steps    int                  // controlled mode: events executed
+	lastRun  map[string]int       // controlled mode: label -> step at which it ran last
 	panicked map[string]bool      // (client, command) pairs whose mock panic has been reported (retries are not re-reported)
 }
 
@@ -239,6 +242,10 @@ func Pause(d time.Duration) {
 }
 
 func (g *Gate) loop() {
+	if g.w.opt.Control != nil {
+		g.controlledLoop()
+		return
+	}
 	for {
 		select {
 		case <-g.wake:
